@@ -169,8 +169,11 @@ macro_rules! entry1d_case {
                 if ids(&buf) != s_ids { ok_into = false; }
             }
             // single-call `interp_into` with non-standard buffers and wrongly shaped buffers (C13 / C14)
-            if let Some(qv) = q.iter().next() {
-                let single = interp.interp(*qv).unwrap();
+            let knot_q = var("qknot1", shadow(x[1]));
+            for (qtag, qv) in q.iter().next().map(|e| ("", e)).into_iter().chain(std::iter::once(("@knot", &knot_q))) {
+                let tag = format!("{tag}{qtag}");
+                let tag = tag.as_str();
+                let single = match interp.interp(*qv) { Ok(s) => s, Err(_) => continue };
                 let s_ids = ids(&single);
                 if single.ndim() > 0 && !s_ids.is_empty() {
                     let poison = var("POISON", 12345.0);
@@ -401,6 +404,7 @@ pub fn dispatch(cmd: &str, args: &[String], line: &str) {
             "lanes" => crate::entry2::lane_alone(args, &mut checks),
             "layouts" => crate::entry2::layouts(args, &mut checks),
             "scalar" => crate::entry2::scalar(args, &mut checks),
+            "flagpair" => crate::entry2::flagpair(args, &mut checks),
             "oracle" => {
                 // bounded concrete stand-in: the property's own oracle on the real crate at f64 / i32 / i64
                 let unit = str_arg(args, "unit", "");
